@@ -42,6 +42,7 @@ func main() {
 		os.Exit(2)
 	}
 	run := report.New(id, tier)
+	ctx.Run = run
 	if err := fn(ctx, run); err != nil {
 		fmt.Fprintln(os.Stderr, "check error:", err)
 		os.Exit(2)
@@ -83,6 +84,7 @@ func replay(path string) int {
 			return 2
 		}
 		run := report.New(v.Property, t)
+		ctx.Run = run
 		if err := fn(ctx, run); err != nil {
 			fmt.Fprintln(os.Stderr, "check error:", err)
 			return 2
